@@ -1,6 +1,7 @@
 #!/usr/bin/env python3
 """Evaluate every seeded change under a root (default /tmp/seed/*/_seed/change*) -> <root>/results/*.json"""
 import json
+import os
 import sys
 from concurrent.futures import ThreadPoolExecutor
 from pathlib import Path
@@ -16,10 +17,16 @@ dirs = sorted(root.glob(f"C*/_seed/{pat}")) if (root / "C01").exists() else sort
 only = set(sys.argv[2].split(",")) if len(sys.argv) > 2 and sys.argv[2] else None
 
 
+RESUME_AFTER = float(os.environ.get("SEED_RESUME_AFTER", "0"))
+
+
 def one(d: Path):
     pid = d.parts[-3] if d.parts[-2] == "_seed" else d.parts[-2]
     name = f"{pid}-{d.name}"
     if only and pid not in only and name not in only:
+        return name, None
+    done = out / f"{name}.json"
+    if RESUME_AFTER and done.exists() and done.stat().st_mtime > RESUME_AFTER:
         return name, None
     try:
         r = evaluate(d, ALL)
